@@ -155,6 +155,12 @@ static int32_t wr_data(struct jls_core_fsr_s * self) {
     }
     uint32_t data_length = (self->data->header.entry_count * sample_size_bits(self) + 7) / 8;
     uint32_t payload_length = sizeof(struct jls_fsr_data_s) + data_length;
+    uint32_t partial_bits = (self->data->header.entry_count * sample_size_bits(self)) % 8;
+    if (partial_bits) {
+        // sub-byte samples: the pending partial byte is the last byte of the block
+        uint8_t * data_u8 = (uint8_t *) self->data->data;
+        data_u8[data_length - 1] = self->shift_buffer & (uint8_t) ((1 << partial_bits) - 1);
+    }
     bool omit_data = (self->write_omit_data > 1);
     struct jls_core_track_s * track = &self->parent->tracks[JLS_TRACK_TYPE_FSR];
 
@@ -461,6 +467,7 @@ static int32_t wr_data_inner(struct jls_core_fsr_s * self, const void * data, ui
     uint8_t * dst_u8;
     uint8_t shift_this = (data_length * sample_size_bits) % 8;
     uint8_t shift_amount_next = (shift_this + self->shift_amount) % 8;
+    bool pending_counted = true;  // pending bits belong to samples already in entry_count
 
     while (data_length) {
         dst_u8 = (uint8_t *) &b->data[0];
@@ -471,8 +478,15 @@ static int32_t wr_data_inner(struct jls_core_fsr_s * self, const void * data, ui
         }
         if (self->shift_amount) {
             uint8_t mask = (1 << self->shift_amount) - 1;
-            uint32_t bits = length * sample_size_bits + self->shift_amount;
+            uint32_t bits = length * sample_size_bits;
+            if (pending_counted) {
+                bits += self->shift_amount;
+                pending_counted = false;  // in the next block, they are part of length
+            }
             while (bits) {
+                if (bits <= self->shift_amount) {
+                    break;  // the remaining bits are already pending
+                }
                 uint16_t v = (self->shift_buffer & mask) | (((uint16_t) (*src_u8++)) << self->shift_amount);
                 if (bits >= 8) {
                     *dst_u8++ = (uint8_t) v;
